@@ -43,6 +43,9 @@ Next ==
         /\ \E p \in Files : CanWrite(p) /\ \E n \in {0, 1, CU, Len(tree[p].data) - 1, Len(tree[p].data) + 1, Len(tree[p].data) + CU + 1} :
               /\ n >= 0 /\ n <= MaxLen + CU + 1 /\ n # Len(tree[p].data)
               /\ p # held /\ Go(TRUE, TruncateT(p, n)) /\ Log([a |-> "Truncate", p |-> p, off |-> n]) /\ UNCHANGED <<tag, held>>
+     \* Truncate aimed at a symlink or a directory: whatever the answer, nothing changes
+     \/ /\ WithTrunc /\ Neg
+        /\ \E p \in Links \cup Dirs, n \in {0, 1} : Exists(p) /\ Go(FALSE, tree) /\ Log([a |-> "Truncate", p |-> p, off |-> n]) /\ UNCHANGED <<tag, held>>
      \/ \E p \in Links, t \in Targets : (Neg \/ CanSymlink(p)) /\ Go(CanSymlink(p), SymlinkT(p, t)) /\ Log([a |-> "Symlink", p |-> p, t |-> t]) /\ UNCHANGED <<tag, held>>
      \/ \E p \in Paths : p # held /\ (CanRemove(p) \/ (Neg /\ p \in {"d", "a"})) /\ Go(CanRemove(p), RemoveT(p)) /\ Log([a |-> "Remove", p |-> p]) /\ UNCHANGED <<tag, held>>
      \/ /\ WithAttr
